@@ -49,6 +49,7 @@ type World struct {
 	calls        []CallRec
 	chainRev     map[*T]*T // chain-id term -> revision (contexts made by NewCtx)
 	intCells     map[*T]*T // value written by StSetInt -> the integer it encodes
+	closed       map[string][]string // store -> key prefixes with no entry in the pre-state (verif.StClosePrefix)
 }
 
 type readEntry struct {
@@ -134,7 +135,13 @@ func (w *World) get(c *CtxVal, name string, key *T) *T {
 	v := Select(a, key)
 	if !w.readKeys[key.id] {
 		w.readKeys[key.id] = true
-		w.readLog = append(w.readLog, readEntry{store: name, key: key, init: mk("select", StrS, w.rootArr(c.ms, name), key)})
+		init := mk("select", StrS, w.rootArr(c.ms, name), key)
+		w.readLog = append(w.readLog, readEntry{store: name, key: key, init: init})
+		for _, p := range w.closed[name] {
+			if pre := StrPrefixOf(StrConst(p), key); !pre.IsFalse() {
+				w.e.addAxiom(fmt.Sprintf("closed:%s:%d:%s", name, key.id, p), Implies(pre, Eq(init, StrConst(""))))
+			}
+		}
 	}
 	return v
 }
